@@ -19,6 +19,7 @@ import (
 	"strings"
 	"sync"
 	"sync/atomic"
+	"syscall"
 	"time"
 
 	"github.com/sirupsen/logrus"
@@ -464,13 +465,26 @@ func (f *fixture) barrierRT(timeout time.Duration) bool {
 }
 
 func (f *fixture) drain() [][2]interface{} {
+	// Non-blocking reads straight on the descriptor: everything the server sent before it answered the barrier is
+	// already queued in the peers' sockets (loopback delivery is synchronous), and read deadlines are unreliable
+	// under CPU load (an already expired deadline fails the read without trying).
 	var res [][2]interface{}
 	buf := make([]byte, 65536)
 	for k, c := range f.peers {
+		rc, err := c.SyscallConn()
+		if err != nil {
+			continue
+		}
 		for {
-			_ = c.SetReadDeadline(time.Now().Add(300 * time.Microsecond))
-			n, _, err := c.ReadFrom(buf)
-			if err != nil {
+			n := -1
+			_ = rc.Read(func(fd uintptr) bool {
+				m, _, e := syscall.Recvfrom(int(fd), buf, syscall.MSG_DONTWAIT)
+				if e == nil {
+					n = m
+				}
+				return true
+			})
+			if n < 0 {
 				break
 			}
 			b := make([]byte, n)
